@@ -77,3 +77,16 @@ def rest(es):
 
 def is_empty(es):
     return len(es) == 0
+
+
+class _IdentMap(dict):
+    """natively: a features mapping in which every id maps to {'name': id}"""
+    def __getitem__(self, key):
+        return {'name': key}
+
+    def __contains__(self, key):
+        return True
+
+
+def ident_map():
+    return _IdentMap()
